@@ -510,4 +510,118 @@ def startF (env funcs : Env) : ShF := { sh := clean env, funcs := funcs }
 environment, functions, lines echoed, exit status; `none` = outside the fragment -/
 def shEvalF (env funcs : Env) (text : Str) : Option ShF := (feedF (startF env funcs) text).bind finishF
 
+/-! ## the command line: `setupcmd.EupsSetup.run` / `execute` and the wrapper `bin/eups_setup`
+
+What reaches the caller's shell is the standard output of `eups_setup` (evaluated) — the exit status of the Python
+process is visible to the wrapper only.  `runCli` models the glue around `eups.setup`: which option combinations end
+before anything is printed (status 2, 3), which exceptions make the wrapper print `false` (status 1, 4, 255), and
+that otherwise the command list is printed joined by `";\n"`. -/
+
+structure Cli where
+  help : Bool := false
+  version : Bool := false
+  list : Bool := false
+  unsetup : Bool := false
+  /-- `-j` -/
+  nodepend : Bool := false
+  /-- `-S` -/
+  maxDepth : Int := -1
+  /-- `-m` -/
+  tablefile : Option Str := none
+  /-- `-r` -/
+  productDir : Option Str := none
+  /-- positional arguments -/
+  args : List Str := []
+  deriving DecidableEq, Repr
+
+/-- the facts about the file system and the database that the glue looks at -/
+structure CliWorld where
+  /-- `os.path.exists(tablefile)` -/
+  tablefileExists : Bool := false
+  /-- `<productDir>/ups` is a directory -/
+  upsIsDir : Bool := false
+  /-- the products that have a table file in that directory -/
+  tables : List Str := []
+  /-- `Eups.findProduct(product, version)` finds something (asked only for `-r DIR PRODUCT VERSION`) -/
+  found : Bool := false
+  deriving DecidableEq, Repr
+
+/-- what happens inside the `try` of `execute` (creation of `Eups`, VRO, `eups.setup`) -/
+inductive Inner
+  | returned (cmds : List Str)
+  | eupsException
+  | otherException
+  deriving DecidableEq, Repr
+
+structure CliResult where
+  /-- text written to standard output (`none`: nothing, not even a newline) -/
+  stdout : Option Str
+  /-- exit status of the process -/
+  status : Nat
+  deriving DecidableEq, Repr
+
+/-- `os.path.basename` -/
+def basename (p : Str) : Str := p.foldl (fun acc c => if c == 47 then [] else acc ++ [c]) []
+
+/-- `os.path.splitext(b)[0]` for a name without `/`: the last dot that is not among the leading dots splits -/
+def stem (b : Str) : Str :=
+  let lead := b.takeWhile (· == 46)
+  let rest := b.dropWhile (· == 46)
+  if rest.contains 46 then lead ++ ((rest.reverse.dropWhile (· != 46)).drop 1).reverse else b
+
+/-- `utils.guessProduct(<productDir>/ups, productName)`; `none` = `RuntimeError` -/
+def guessProduct (w : CliWorld) (name : Option Str) : Option Str :=
+  if !w.upsIsDir || w.tables.isEmpty then name
+  else match name with
+    | some n => if w.tables.contains n then some n else none
+    | none => match w.tables with
+      | [t] => some t
+      | _ => none
+
+def sNone : Str := [110, 111, 110, 101]                       -- none
+
+/-- the wrapper's `except Exception` branch: `print("false")`, `sys.exit(e.status)` -/
+def cliFailed (status : Nat) : CliResult := { stdout := some (sFalse ++ [10]), status := status }
+
+/-- the table file that counts: `--table` is ignored by `unsetup` -/
+def Cli.tf (c : Cli) : Option Str := if c.unsetup then none else c.tablefile
+
+/-- a product named by its table file only (`setup -m FILE`): name and directory come from the file's path -/
+def Cli.fromTable (c : Cli) : Bool := c.tf.isSome && c.args.head?.isNone
+
+/-- the product name before `guessProduct` -/
+def Cli.name1 (c : Cli) : Option Str := if c.fromTable then c.tf.map (fun t => stem (basename t)) else c.args.head?
+
+/-- `self.opts.productDir` is set (by `-r`, or from the table file's directory) -/
+def Cli.hasDir (c : Cli) : Bool := c.productDir.isSome || c.fromTable
+
+def Cli.guess (c : Cli) (w : CliWorld) : Option Str := if c.hasDir then guessProduct w c.name1 else c.name1
+
+/-- the product name `eups.setup` is called with -/
+def Cli.name2 (c : Cli) (w : CliWorld) : Option Str := if c.hasDir && (c.guess w).isSome then c.guess w else c.name1
+
+/-- the exits of `run`/`execute` before the `try` block: `some r` = the run ends here with `r` -/
+def cliEarly (c : Cli) (w : CliWorld) : Option CliResult :=
+  if c.help || c.version then some { stdout := none, status := 0 }
+  else if c.list then some { stdout := none, status := 2 }
+  else if c.tf.isSome && !w.tablefileExists && c.tf != some sNone then some { stdout := none, status := 3 }
+  else if !c.hasDir && c.name1.isNone then some { stdout := none, status := 3 }
+  else if c.hasDir && (c.guess w).isNone && c.tf.isNone then some (cliFailed 4)       -- RuntimeError, `e.status = 4`
+  else if (c.name2 w).isNone then some { stdout := none, status := 3 }
+  else if c.nodepend && c.maxDepth > 0 then some { stdout := none, status := 3 }
+  else none
+
+/-- the `try` block -/
+def cliInner (c : Cli) (w : CliWorld) : Inner → CliResult
+  | .eupsException => cliFailed 1
+  | .otherException => cliFailed 255                                                  -- `e.status = -1`
+  | .returned cmds =>
+    if c.productDir.isSome && c.tf.isNone && (c.args.drop 1).head?.isSome && !w.found then { stdout := none, status := 3 }
+    else { stdout := some (join cmds ++ [10]), status := 0 }
+
+def runCli (c : Cli) (w : CliWorld) (inner : Inner) : CliResult :=
+  match cliEarly c w with
+  | some r => r
+  | none => cliInner c w inner
+
 end EupsModel.ShellEmit
